@@ -1372,7 +1372,10 @@ func checkWaitGroups(w *World, r *Report, pfx string) {
 	byClass := map[string][]*commOp{}
 	for _, op := range ct.Ops {
 		if strings.HasPrefix(op.Kind, "wg.") {
-			byClass[op.Class.String()] = append(byClass[op.Class.String()], op)
+			// an operation in a helper that takes the group by pointer belongs to every caller's group
+			for k := range op.Class {
+				byClass[k] = append(byClass[k], op)
+			}
 		}
 	}
 	var keys []string
